@@ -220,12 +220,13 @@ theorem histchunk_roundtrip (c : Chunk) (s0 : Stored) (ss : List Stored) (ok : P
 /-- **From appended histograms to bytes and back** (`append_roundtrip` ∘ `histchunk_roundtrip`).  Every chunk of a
     head series built by the transcribed appender from valid integer histograms far inside the int64 range
     (`SmallH`: |t| < 2^61, counts < 2^61, absolute bucket counts in [0, 2^60)) — whatever was cut, recoded forward
-    or backward — is decoded from its encoded bytes exactly, provided its final layout is encodable (`LayoutOk`:
-    exponential schema, span offsets/lengths in range).  Reading the decoded chunks therefore returns the appended
-    histograms (`append_roundtrip`). -/
+    or backward — is decoded from its encoded bytes exactly, provided the span lists of its final (merged) layout
+    fit the layout encoding (`SpansEnc`: offsets in int64, lengths and number of spans below 2^64; `SmallH` also
+    asks for an exponential schema).  Reading the decoded chunks therefore returns the appended histograms
+    (`append_roundtrip`). -/
 theorem bytes_roundtrip (ops : List ((Int × Hist) × Bool)) (s : Series) (hwf : ∀ p ∈ ops, WFs p.1.2)
     (hsm : ∀ p ∈ ops, Prom.HistChunk.SmallH p.1) (hrun : runSeries ops Series.empty = .ok s) :
-    ∀ c ∈ s.chunks, Prom.HistChunk.LayoutOk (Prom.HistChunk.layoutOf c) →
+    ∀ c ∈ s.chunks, Prom.HistChunk.SpansEnc c →
       Prom.HistChunk.decodeChunk (Prom.HistChunk.encodeChunk c) = some c :=
   Prom.HistChunk.series_bytes_roundtrip ops s hwf hsm hrun
 
